@@ -77,13 +77,14 @@ def check(prog: Program, tier: str) -> Result:
     _r4_o(prog, res)
     _r4_q(prog, res)
     _r4_r(prog, res)
+    _r4_s(prog, res)
     # R4.p: arithmetic / ordering on the value of a matched constant raises TypeError inside the formatter for 'a' or None
     # unless the selecting template pins the value type - decided by the C17 check (R17.9), adopted
     from . import c17 as _c17
     _tmp = Result("C17", "", "")
     _c17._r17_9(prog, _tmp)
     res.adopt(_tmp, {"R17.9"}, "R4.p", "an unpinned constant can be a str or None: the operation raises TypeError out of the rule and out of format_code")
-    res.floors.update({"R4.r": 1, "R4.q": 30, "R4.p": 3, "R4.o": 2, "R4.n": 2, "R4.m": 2, "R4.a": 25, "R4.b": 200, "R4.c": 4, "R4.d": 18, "R4.e": 8, "R4.f": 40, "R4.h": 2, "R4.i": 2, "R4.j": 5, "R4.k": 1})
+    res.floors.update({"R4.s": 20, "R4.r": 1, "R4.q": 30, "R4.p": 3, "R4.o": 2, "R4.n": 2, "R4.m": 2, "R4.a": 25, "R4.b": 200, "R4.c": 4, "R4.d": 18, "R4.e": 8, "R4.f": 40, "R4.h": 2, "R4.i": 2, "R4.j": 5, "R4.k": 1})
     return res
 
 
@@ -1156,6 +1157,94 @@ def _r4_q(prog: Program, res: Result) -> None:
         raise AnalysisError("no constant-index access to a list field found")
 
 
+OP_FIELD_CATEGORY = {("UnaryOp", "op"): "unaryop", ("BinOp", "op"): "operator", ("AugAssign", "op"): "operator", ("BoolOp", "op"): "boolop", ("Compare", "ops"): "cmpop"}
+
+
+def _r4_s(prog: Program, res: Result) -> None:
+    """Well-formed constructions: the `op` of a constructed ast.UnaryOp must be a unary operator, of ast.BinOp / ast.AugAssign a
+    binary one, of ast.BoolOp And / Or, the `ops` of ast.Compare comparison operators.  CPython does not check this when the node
+    is built; ast.unparse then fails with KeyError (`ast.UnaryOp(op=<the Sub of an augmented assignment>)` for `x -= i`), out of
+    the rule and out of format_code.  Instance: every op= / ops= keyword of such a constructor call; the category of the
+    argument is read from a literal operator class (`ast.USub()`), or from `<n>.op` when the class of n is known on the path
+    (isinstance / match_template with a class or a template of that class)."""
+    import ast as _a
+    from ..pathcond import PathAnalysis, plain
+
+    def cat_of_class(name: str):
+        cls = getattr(_a, name, None)
+        if not isinstance(cls, type):
+            return None
+        for base, cat in ((_a.unaryop, "unaryop"), (_a.operator, "operator"), (_a.boolop, "boolop"), (_a.cmpop, "cmpop")):
+            if issubclass(cls, base):
+                return cat
+        return None
+
+    def ast_name(fn: Func, e: ast.AST):
+        if isinstance(e, ast.Call) and not e.args and not e.keywords:
+            e = e.func
+        d = prog.dotted(e)
+        if d and "." in d:
+            head, name = d.rsplit(".", 1)
+            if fn.mod.aliases.get(head) == ("ext", "ast") and hasattr(_a, name):
+                return name
+        return None
+    n = 0
+    pas = {}
+    for fn in prog.funcs.values():
+        for c in walk_own(fn.node):
+            if not isinstance(c, ast.Call):
+                continue
+            cls = ast_name(fn, c.func)
+            if cls is None:
+                continue
+            for kw in c.keywords:
+                want = OP_FIELD_CATEGORY.get((cls, kw.arg))
+                if want is None:
+                    continue
+                exprs = kw.value.elts if kw.arg == "ops" and isinstance(kw.value, (ast.List, ast.Tuple)) else [kw.value]
+                for e in exprs:
+                    got, how = None, ""
+                    nm = ast_name(fn, e)
+                    if nm is not None:
+                        got, how = cat_of_class(nm), f"ast.{nm}"
+                    elif isinstance(e, ast.Attribute) and e.attr in ("op",) and isinstance(e.value, ast.Name):
+                        # class of the node on the path
+                        pa = pas.setdefault(fn.key, PathAnalysis(prog, fn))
+                        cats = set()
+                        for w in pa.worlds_at(c):
+                            tok = e.value.id
+                            for f in w.facts:
+                                if f[0] == "lit" and f[2]:
+                                    t = plain(f[1]).replace(" ", "")
+                                    if t.startswith(f"isinstance({tok},") or (("match_template(" + tok + ",") in t):
+                                        for k_, cat in (("UnaryOp", "unaryop"), ("BinOp", "operator"), ("AugAssign", "operator"), ("BoolOp", "boolop")):
+                                            if f"ast.{k_}" in t.split(",", 1)[1][:60]:
+                                                cats.add(cat)
+                        if len(cats) == 1:
+                            got, how = cats.pop(), f"{norm(e)} of a node the path knows to be of that kind"
+                        else:
+                            # through a local template: match_template(n, T) with T = ast.AugAssign(...)
+                            from ..defuse import bindings
+                            for w in pa.worlds_at(c)[:1]:
+                                for f in w.facts:
+                                    if f[0] == "lit" and f[2] and ("match_template(" + e.value.id) in plain(f[1]).replace(" ", ""):
+                                        arg = plain(f[1]).replace(" ", "").split(",", 1)[1].rstrip(")")
+                                        for _s, v in bindings(fn).get(arg.split("(")[0], []):
+                                            if isinstance(v, ast.Call):
+                                                k_ = ast_name(fn, v.func)
+                                                cat = {"UnaryOp": "unaryop", "BinOp": "operator", "AugAssign": "operator", "BoolOp": "boolop"}.get(k_)
+                                                if cat:
+                                                    got, how = cat, f"{norm(e)} of a node matched by `{arg}` = ast.{k_}(..)"
+                    if got is None:
+                        continue
+                    n += 1
+                    res.decide(got == want, "R4.s", fn.loc(c), fn.fq, f"{short(c, 60)} # {kw.arg} of ast.{cls}",
+                               f"{how} is a {want}" if got == want else
+                               f"ast.{cls}({kw.arg}=..) is given {how}, a {got}: the tree is ill-formed and ast.unparse raises KeyError (`x = 0; for i in y: x -= i` crashes the formatter)")
+    if n == 0:
+        raise AnalysisError("R4.s: no operator field of a constructed node found")
+
+
 def _r4_r(prog: Program, res: Result) -> None:
     """Contradiction rule for computed indexes: if a function reads `A[e]` only under a test of the index variable against
     len(A) (so it believes the index can be out of range) and reads `B[e]` - the same index expression, B a table built from
@@ -1523,6 +1612,8 @@ class ValidPA(PathAnalysis):
 from ..selftest import Variant  # noqa: E402
 
 VARIANTS = [
+    Variant("unary-node-built-with-the-binary-operator", "FIRE", "fixes", "                        replacement = ast.UnaryOp(op=ast.USub(), operand=replacement)", "                        replacement = ast.UnaryOp(op=body_node.op, operand=replacement)", "R4.s"),
+    Variant("boolop-built-with-a-comparison-operator", "FIRE", "fixes", "                comprehension.ifs = [ast.BoolOp(op=ast.And(), values=comprehension.ifs)]", "                comprehension.ifs = [ast.BoolOp(op=ast.Eq(), values=comprehension.ifs)]", "R4.s"),
     Variant("line-start-table-read-past-the-end", "FIRE", "core",
             "    if lineno > len(lines):\n        return len(source)  # After the last line, where something may be inserted\n\n    line = lines[lineno - 1]\n",
             "    line = lines[lineno - 1] if lineno <= len(lines) else \"\"\n", "R4.r"),
